@@ -20,6 +20,27 @@ theorem valid_iff_all_rules (d : Desc) : validBlock d = .ok () ↔ Valid d :=
 theorem reject_names_violated_rule (d : Desc) (r : Rule) (h : validBlock d = .error r) :
     ruleOk r d = false := Lemmas.validBlock_error d r h
 
+/-- when exactly one rule is violated, the decision procedure reports that rule -/
+theorem single_violation_reported (d : Desc) (r : Rule) (h : violated d = [r]) : validBlock d = .error r := by
+  unfold validBlock firstViolation
+  have : Rule.all.find? (fun r => !ruleOk r d) = (violated d).head? := by
+    unfold violated; rw [List.head?_filter]
+  rw [this, h]
+  rfl
+
+/-- the witness flag is never enforced without the P2SH flag (what the script engine demands; F-C01-a) -/
+theorem witness_flag_implies_p2sh (d : Desc) (h : d.segwit = true) : d.p2sh = true := by
+  unfold Desc.p2sh; rw [h]; simp
+
+/-- witness data is only admissible under an active segwit deployment with a commitment present (F-C01-b) -/
+theorem witness_needs_active_commitment (d : Desc) (h : ruleOk .unexpectedWitness d = true)
+    (t : TxFacts) (ht : t ∈ d.B.txs) (hw : t.hasWitness = true) : d.segwit = true ∧ d.B.commit ≠ 0 := by
+  simp only [ruleOk, Bool.or_eq_true, Bool.and_eq_true, List.all_eq_true] at h
+  rcases h with ⟨h1, h2⟩ | h
+  · exact ⟨h1, by simpa using h2⟩
+  · have := h t ht
+    rw [hw] at this; cases this
+
 /-! ### the chain machine with the rule checks instantiated by `validBlock`
 
 `D anc b` is any derivation of the block description from the block `b` and its OWN ancestor list `anc`
